@@ -163,3 +163,84 @@ func VerifH_C17_arraylit() {
 		vp.Assert("C01.arraylit.sound", !accepted)
 	}
 }
+
+// struct literals: field indices of keyed literals are arbitrary integer constants
+func VerifH_C17_structlit() {
+	pkg := verifNewPkg()
+	cb := pkg.CB()
+	nf := vp.Choose("nfields", 4)
+	ftypes := []types.Type{types.Typ[types.Int], types.Typ[types.String], types.Typ[types.Int]}
+	var flds []*types.Var
+	for i := 0; i < nf; i++ {
+		flds = append(flds, types.NewField(token.NoPos, pkg.Types, "F"+string(rune('0'+i)), ftypes[i], false))
+	}
+	var typ types.Type = types.NewStruct(flds, nil)
+	if vp.Choose("named", 2) == 1 {
+		typ = types.NewNamed(types.NewTypeName(token.NoPos, pkg.Types, "S", nil), typ, nil)
+	}
+	keyed := vp.Choose("keyed", 2) == 1
+	nel := vp.Choose("nel", 3)
+	idx := make([]constant.Value, nel)
+	vtyp := make([]types.Type, nel)
+	class := verifNoFault("structlit", func() {
+		for i := 0; i < nel; i++ {
+			if keyed {
+				if vp.Choose("huge"+string(rune('0'+i)), 4) == 3 {
+					idx[i] = constant.Shift(constant.MakeInt64(1), token.SHL, 70)
+				} else {
+					idx[i] = constant.MakeInt64(vp.Int64("idx"+string(rune('0'+i)), -3, 6))
+				}
+				cb.Val(&Element{Val: &ast.BasicLit{Kind: token.INT, Value: "k"}, Type: types.Typ[types.UntypedInt], CVal: idx[i]})
+			}
+			vtyp[i] = ftypes[vp.Choose("vt"+string(rune('0'+i)), 2)]
+			cb.Val(verifNonConst("e", vtyp[i]))
+		}
+		arity := nel
+		if keyed {
+			arity = 2 * nel
+		}
+		cb.StructLit(typ, arity, keyed)
+	})
+	if class == vp.FaultPanic {
+		return
+	}
+	accepted := class == vp.NoPanic
+	valid := true
+	dup := false
+	if keyed {
+		for i := 0; i < nel; i++ {
+			if constant.Sign(idx[i]) < 0 || !constant.Compare(idx[i], token.LSS, constant.MakeInt64(int64(nf))) {
+				valid = false
+				continue
+			}
+			k, _ := constant.Int64Val(idx[i])
+			if !types.Identical(vtyp[i], ftypes[k]) {
+				valid = false
+			}
+			for j := 0; j < i; j++ {
+				if constant.Compare(idx[i], token.EQL, idx[j]) {
+					dup = true
+				}
+			}
+		}
+	} else {
+		if nel != 0 && nel != nf {
+			valid = false
+		}
+		for i := 0; i < nel && i < nf; i++ {
+			if !types.Identical(vtyp[i], ftypes[i]) {
+				valid = false
+			}
+		}
+	}
+	vp.FactBool("dupfield", dup)
+	if valid && !dup {
+		vp.Assert("C02.structlit.complete", accepted)
+	} else {
+		vp.Assert("C01.structlit.sound", !accepted)
+	}
+	if accepted {
+		lit, ok := cb.Get(-1).Val.(*ast.CompositeLit)
+		vp.Assert("C02.structlit.node", ok && len(lit.Elts) == nel)
+	}
+}
